@@ -116,7 +116,10 @@ PROPS["C09"] = {
 
 PROPS["C01"] = {
     "level": "model_checking",
-    "kani": [{"package": "boa_engine", "flags": ENGINE_FLAGS, "tags": ["model", "c01a", "c01c", "c01d", "c01e"]}],
+    "kani": [{"package": "boa_engine", "flags": ENGINE_FLAGS, "tags": ["model", "c01a", "c01c", "c01d", "c01e"]},
+             # equality.rs is representation independent source; under the NaN-boxed build its four variant() calls per
+             # relation blow CBMC up (DESIGN 9.1), so it is checked in the jsvalue-enum configuration
+             {"package": "boa_engine", "flags": ENGINE_FLAGS + ["--features", "jsvalue-enum"], "tags": ["model", "c01f"]}],
     "assumptions": COMMON_ASSUME + [
         "operands are Numbers (Integer32 / Float64); coercion of other types is outside",
         "Float64 results of int-specialised paths are compared with the syntactically identical IEEE expression on the converted operands; integer results against exact i64 arithmetic",
